@@ -8,31 +8,72 @@ namespace Zed
 
 def ordOfInt (i : Int) : Ordering := if i < 0 then .lt else if i = 0 then .eq else .gt
 
+def Val.num? : Val → Option Num
+  | .num _ n => some n
+  | _ => none
+
+/-- the last cases of `compareValues` for two non-container values of the same underlying
+    type: bool, type values, ips (netip.Addr.Compare: bit length, then address), and bytewise
+    for everything else (bytes, string, and the final `bytes.Compare(a.Bytes(), b.Bytes())`). -/
+def cmpLeaf : Val → Val → Ordering
+  | .bool _ x, .bool _ y => if x = y then .eq else if x then .gt else .lt
+  | .typ _ x, .typ _ y => cmpTy x y
+  | .ip _ x, .ip _ y => (compare x.length y.length).then (cmpBytes x y)
+  | a, b => cmpBytes a.payload b.payload
+
+/-- `expr.compareValues(a, b, nullsMax)` up to the point where two values of the same
+    underlying type are compared (`same`).  The null results are the regenerated constants. -/
+def cmpCore (nullsMax : Bool) (a b : Val) (same : Ordering) : Ordering :=
+  if a.isNull && b.isNull then ordOfInt Generated.C06.bothNull
+  else if a.isNull then ordOfInt (if nullsMax then Generated.C06.nullA.1 else Generated.C06.nullA.2)
+  else if b.isNull then ordOfInt (if nullsMax then Generated.C06.nullB.1 else Generated.C06.nullB.2)
+  else if a.ty.isNumber && b.ty.isNumber then
+    match a.num?, b.num? with
+    | some x, some y => cmpNum x y
+    | _, _ => .eq
+  else if a.ty.under ≠ b.ty.under then cmpTy a.ty b.ty
+  else same
+
 mutual
-/-- `expr.compareValues(a, b, nullsMax)`.  The null results are the regenerated constants. -/
+/-- `expr.compareValues(a, b, nullsMax)`; arrays and sets are compared element by element. -/
 def cmpVal (nullsMax : Bool) : Val → Val → Ordering
-  | a, b =>
-    if a.isNull && b.isNull then ordOfInt Generated.C06.bothNull
-    else if a.isNull then ordOfInt (if nullsMax then Generated.C06.nullA.1 else Generated.C06.nullA.2)
-    else if b.isNull then ordOfInt (if nullsMax then Generated.C06.nullB.1 else Generated.C06.nullB.2)
-    else if a.ty.isNumber && b.ty.isNumber then
-      match a, b with
-      | .num _ x, .num _ y => cmpNum x y
-      | _, _ => .eq
-    else if a.ty.under ≠ b.ty.under then cmpTy a.ty b.ty
-    else
-      match a, b with
-      | .bool _ x, .bool _ y => if x = y then .eq else if x then .gt else .lt
-      | .typ _ x, .typ _ y => cmpTy x y
-      | .ip _ x, .ip _ y => (compare x.length y.length).then (cmpBytes x y)
-      | .seq _ xs, .seq _ ys => cmpVals nullsMax xs ys
-      | a, b => cmpBytes a.payload b.payload
+  | .seq t xs, .seq t' ys => cmpCore nullsMax (.seq t xs) (.seq t' ys) (cmpVals nullsMax xs ys)
+  | a, b => cmpCore nullsMax a b (cmpLeaf a b)
 def cmpVals (nullsMax : Bool) : Vals → Vals → Ordering
   | .nil, .nil => .eq
   | .nil, .cons _ _ => .lt
   | .cons _ _, .nil => .gt
   | .cons x xs, .cons y ys => (cmpVal nullsMax x y).then (cmpVals nullsMax xs ys)
 end
+
+/-! ### the guard of `compare_total_preorder_partial`
+
+  `compareNumbers` converts an integer to float64 when the other operand is a float; that is
+  exact only up to 2^53.  `NumOK a b`: the comparison of `a` with `b` does not round
+  (`NoLossyMix` of DESIGN.md §5 C06, for one pair). -/
+
+def IntSafe : Num → Bool
+  | .int i => i.natAbs ≤ 2 ^ 53
+  | .uint u => u ≤ 2 ^ 53
+  | .float _ => true
+
+def Num.isFloat : Num → Bool
+  | .float _ => true
+  | _ => false
+
+def NumOK (a b : Num) : Prop := (a.isFloat = true ∨ b.isFloat = true) → (IntSafe a = true ∧ IntSafe b = true)
+
+def PairOK (a b : Val) : Prop :=
+  match a.num?, b.num? with
+  | some x, some y => NumOK x y
+  | _, _ => True
+
+/-- per-value forms: `mixGuard true v` = every integer is within ±2^53, `mixGuard false v` = `v` is
+    not a float.  A set of values all satisfying one of the two is free of lossy mixes. -/
+def mixGuard (intSafe : Bool) (v : Val) : Bool :=
+  match v.num? with
+  | some n => if intSafe then IntSafe n else !n.isFloat
+  | none => true
 
 /-! ### Comparator -/
 
@@ -53,10 +94,12 @@ def cmpKeys (nullsMax : Bool) : List Bool → List Val → List Val → Ordering
 def cmpRow (nullsMax : Bool) (dirs : List Bool) (a b : Row) : Ordering :=
   cmpKeys nullsMax dirs a.keys b.keys
 
-/-! ### the int64 fast path of `sortStableIndices` -/
+/-- a row the Comparator orders exactly: one key per sort expression, every key well-formed
+    (`Val.ok`), and all keys of all rows in one mix-free class (`mixGuard`). -/
+def Row.okFor (dirs : List Bool) (intSafe : Bool) (r : Row) : Prop :=
+  r.keys.length = dirs.length ∧ ∀ k ∈ r.keys, k.ok = true ∧ mixGuard intSafe k = true
 
-def maxInt64 : Int := 2 ^ 63 - 1
-def minInt64 : Int := -(2 ^ 63)
+/-! ### the int64 fast path of `sortStableIndices` -/
 
 def sentinelOf (s : String) : Int := if s = "MaxInt64" then maxInt64 else minInt64
 
